@@ -26,7 +26,7 @@ COMPONENTS_REAL = ["geneticengine.grammar.grammar (extract_grammar, update_weigh
 COMPONENTS_STUB = ["RandomSource.randint/random_float (SimRandom)", "set iteration order (OrderedSimSet)"]
 ASSUMPTIONS = ["not every production of an abstract type has weight zero", "declared weight of an abstract production (nested abstract type) is 1 unless declared"]
 
-FEAT = features(weights=3, nested=3, unreachable=2, standalone=1, cls=6, refined=3, list=1, annlist=1, union=0, tuple=0, flaky=2, dependent=1, abstract_weights=1, nested_start=1, concrete_start=1, wide_weights=1, future_annotations=1)
+FEAT = features(weights=3, nested=3, unreachable=2, standalone=1, cls=6, refined=3, list=1, annlist=1, union=0, tuple=0, flaky=2, dependent=1, abstract_weights=1, nested_start=1, concrete_start=1, wide_weights=1, future_annotations=1, zero_rules=1)
 
 
 def budget(tier):
@@ -101,6 +101,13 @@ def run(ctx):
                     if any(v < 0 for v in vals):
                         ctx.violate("C19/negative-weight", f"extraction #{k + 1}: {a} -> {dict(zip(prods, vals))}")
                         return
+                    if all(declared[p] == 0.0 for p in prods):
+                        # every production of this type is declared with weight zero: there are no ratios to keep and nothing sums
+                        # to one; the weights must simply stay zero (and the other rules are judged as usual)
+                        if any(v != 0 for v in vals):
+                            ctx.violate("C19/all-zero-rule-gained-weight", f"extraction #{k + 1}: {a} -> {dict(zip(prods, vals))} although every production was declared 0")
+                            return
+                        continue
                     tot = sum(vals)
                     if abs(tot - 1.0) > 1e-9:
                         ctx.violate(f"C19/not-normalised/extraction-{'first' if k == 0 else 'repeated'}",
@@ -168,7 +175,31 @@ def run(ctx):
             try:
                 if which == "progressive":
                     rep = TreeBasedRepresentation(g, ProgressivelyTerminalDecider(rnd, g))
-                    rep.create_genotype(rnd)
+                    prog = rep.create_genotype(rnd)
+                    # independent of HOW the decider draws: a production declared with weight zero must not occur in the program
+                    # when its abstract type also has a non-recursive production of positive declared weight that cannot fail
+                    # (no refined fields) and that the depth heuristic never zeroes: that one is available, with positive
+                    # weight, at every decision for the type
+                    rec = ref.recursive()
+                    import json as _json
+
+                    mentioned = _json.dumps([spec["start"]] + [ft for c in spec["classes"] for _, ft in c["fields"]])
+                    for node in ref.nodes(prog):
+                        pn = ref.cls_of(node)
+                        par = ref.parent(pn) if pn else None
+                        if pn is None or par is None or declared.get(pn, 1.0) != 0.0:
+                            continue
+                        if f'"{pn}"' in mentioned:
+                            continue  # named directly as start symbol or field type somewhere: may stand there without any decision
+                        # (the decider's depth heuristic gives a non-recursive production the factor max(target - distance, 0):
+                        # only one strictly shallower than the target keeps a positive combined weight at every depth)
+                        tgt = g.get_max_node_depth()
+                        safe = [q for q in ref.productions(par, reg) if q != pn and not ref.is_abstract(q) and declared.get(q, 1.0) > 0 and q not in rec
+                                and all(ft[0] in ("int", "bool", "float", "str") for _, ft in ref.cls[q]["fields"])
+                                and tgt < 10**6 and g.get_distance_to_terminal(b.cls[q]) < tgt]
+                        if safe:
+                            bad.append(("declared-zero-weight-production-in-program", (pn, par, safe[:2])))
+                            break
                 else:
                     rep = StackBasedGGGPRepresentation(g, gene_length=32, failures_limit=20)
                     geno = rep.create_genotype(rnd)
